@@ -306,6 +306,8 @@ func c19Run(c *Ctx) {
 	}
 	// input corner cases
 	for _, tc := range []struct{ src, stdin string }{
+		{Lines(Var("a", BI("input", `"100% sure? "`)), Var("b", BI("input", `"%d %s %v> "`)), Var("cc", BI("input", `"%%"`)), Var("d", BI("input", `"%"`)), Print("a + b + cc + d")), "w\nx\ny\nz\n"},
+		{Lines(Print(`"50%"`), Var("a", BI("input", `"rate %!(NOVERB) %5.2f: "`)), Print("a + \"%\"")), "7\n"},
 		{Lines(Print(BI("input")), Print(BI("input")), Print(BI("input"))), "l1\nl2\nl3"},
 		{Lines(Print(BI("input")), Print(BI("input"))), "l1\r\nl2\r\n"},
 		{Lines(Print(`"<" + ` + BI("input") + ` + ">"`)), "   \n"},
